@@ -6,10 +6,22 @@ NOTE = ("Trusted: Lean 4.33 kernel; axioms propext / Classical.choice / Quot.sou
         "factgen + Wsp/Props/FactsTie.lean; the wspcheck differ and generators; the theorems are about the model and "
         "model = code is established on the runs made (counts in the evidence).")
 CHECKS = {
+ "C01": ("For every ring geometry, base interval and wrap position (inside the 32-bit zone) Lean theorems show that a fetch returns, per interval, the value of "
+         "that interval's one slot iff the slot is stamped with exactly it (else NaN), that a write replaces exactly the slot of its interval and nothing else "
+         "in any archive, and that slots are shared exactly by intervals congruent mod N*S. Partial: the composition over whole histories is not one theorem. "
+         "Tied to the code by a differential run over histories with raw-slot, file-byte and fetch comparison after every step.",
+         "Lean 4 theorems (refinement of the two-branch wrap read to modular indexing; byte-level write frame) + correspondence check", "§5 C01"),
  "C04": ("The fetch shape is computed by a function of (archive list, id, window, clock) only; failure, absence and the closed form of bounds/step/length "
          "are Lean theorems (closed form inside the zone of 32-bit arithmetic), and the executed fetch is proved to have the planned shape whether or not "
          "the archive was ever written. Tied to the code by differential fetches over boundary windows on empty and non-empty archives.",
          "Lean 4 theorems (case analysis + omega over faithful uint32/int32 arithmetic) + model/implementation correspondence check", "§5 C04"),
+ "C05": ("The disk-vs-view state machine the driver runs: disk changes only at Sync, abandoning after any prefix leaves the last synced image, and every "
+         "library write is proved to land inside an archive region so header and length are fixed; the source's flush/sync/write call sites are regenerated "
+         "facts. Partial: OS durability is out of reach; filebuffer is modelled.",
+         "Lean 4 theorems (induction over operation lists; write-frame induction through the whole write path) + file-bytes-after-every-step correspondence", "§5 C05"),
+ "C06": ("The byte layout (big-endian fields, header order, contiguous archives, 12-byte slots, total length, classic slot position) is proved of the encoder/"
+         "writer model; interoperation with go-whisper is validated three ways on the same bytes. Partial: no Lean model of the reference reader.",
+         "Lean 4 layout theorems + three-way differential check with go-whisper", "§5 C06"),
  "C07": ("validate decides WellFormed (ideal integers) although it computes in uint32/int32: a Lean theorem for all archive lists; "
          "all four entry points are proved to accept only through that test, and the header codec round-trips every accepted header. "
          "The float comparison for xFilesFactor is a named law validated against the code on all boundary bit patterns.",
